@@ -227,13 +227,14 @@ void simheap_reset(const struct simheap_cfg *cfg, uint64_t seed);
 void simheap_end_run(void);
 /* after simheap_reset(): place the element blocks of this run 2^32 bytes apart (1) or 3 * 2^31 bytes apart (2); see simheap.c */
 void simheap_far(int mode);
+void simheap_far_nodeoff(size_t off);    /* far mode 3: the member at this offset of every element block lies on a multiple of 2^32 */
 extern unsigned g_far_placed, g_reused;
 #define CF_FAR 20               /* plan word (worlds with intrusive elements): the far-placement mode of the run */
 #define CF_REUSE 22             /* plan word: freed blocks are handed out again at once (same size, last freed first), as a real allocator does */
 #define REUSE_OF_INDEX() (g_gen_index % 6 == 4 ? 1u : 0u)
 #define CF_DECL 21              /* plan word: the containers of the run start from the static initializer macros, not the init functions */
 #define DECL_OF_INDEX() (g_gen_index % 5 == 2 ? 1u : 0u)
-#define FAR_OF_INDEX() (g_gen_index % 7 == 3 ? 1u : g_gen_index % 7 == 5 ? 2u : 0u)
+#define FAR_OF_INDEX() (g_gen_index % 7 == 3 ? 1u : g_gen_index % 7 == 5 ? 2u : g_gen_index % 7 == 6 ? 3u : 0u)
 
 /* harness-side allocation of tracked blocks (elements, external buffers) */
 void *simheap_alloc(size_t size, int tag);
